@@ -237,6 +237,24 @@ def opCheckInput : P String := do
     | .ok b => s!"ok {b.shape}"
     | .error e => s!"err {e.name}"
 
+/-- C08: which generator with which arguments the model expects a supervised estimator to call -/
+def opWiring : P String := do
+  let k ← next
+  let nc ← optNat; let nChunks ← nat; let chunkSize ← nat; let kg ← nat; let ki ← nat; let numClasses ← nat
+  finish
+  let kind? : Option SupKind := match k with
+    | "ITML_Supervised" => some .itml | "MMC_Supervised" => some .mmc | "SDML_Supervised" => some .sdml
+    | "LSML_Supervised" => some .lsml | "RCA_Supervised" => some .rca | "SCML_Supervised" => some .scml
+    | _ => none
+  match kind? with
+  | none => throw "unknown supervised estimator"
+  | some kind =>
+    let cfg : SupConfig := { nConstraints := nc, nChunks := nChunks, chunkSize := chunkSize, kGenuine := kg, kImpostor := ki }
+    return match wiringOf kind cfg numClasses with
+      | .pairs n sl => s!"ok pairs {n} {if sl then 1 else 0}"
+      | .chunks a b => s!"ok chunks {a} {b}"
+      | .knnTriplets a b => s!"ok knn {a} {b}"
+
 def optInt : P (Option Int) := do
   let t ← next
   if t == "none" then return none
@@ -275,6 +293,7 @@ def dispatch : P String := do
   | "sdp_check" | "cfm_eig" | "cfm_diag" | "pinv_eig" | "init_metric" => opPsd op
   | "pairs" | "chunks" | "knn_class" | "knn_clip" => opConstraints op
   | "form" => opForm
+  | "wiring" => opWiring
   | "check_input" => opCheckInput
   | "calib" => opCalib
   | "validate_calib" => opValidateCalib
